@@ -4,6 +4,7 @@ CONSTANTS
   Combos <- AllCombos
   ClsSet <- Classes
   OrderSet <- BothOrders
+  PreSet <- PlainPre
 INIT Init
 NEXT Next
 INVARIANT Export
